@@ -295,6 +295,35 @@ def run(ctx):
         ok = len(d) == 1 and d[0].v == val and not d[0].guards
         ctx.ob("Q3", I2C, "I2CMasterMachine", f"{st}: {sig} <= {val}", ok, "" if ok else f"{[(a.v) for a in d]}")
 
+    # SDA is handed back: wherever the machine puts a bit of its own on SDA (a data bit, its ACK / NACK) every way back to IDLE passes a
+    # transition that releases the line (sda_o <= 1) -- a must-pass-through check on the state graph, transitions carrying the register
+    # updates their guard entails.  A line left low after an acknowledged read is held through the slave's next byte (read as 0x00).
+    sda = [a for a in i2.find(domain="sync", target="self.sda_o") if a.state]
+    drives = [a for a in sda if a.v not in ("0", "1")]
+    ctx.ob("Q3", I2C, "I2CMasterMachine", "SDA bit drives:present", len(drives) >= 2, f"{[a.v for a in drives]}", 0)
+
+    def carried(t, val=None):
+        return [a for a in sda if a.state[1] == t.src and B.entails(t.eff(), a.eff()) and (val is None or a.v == val)]
+    for a in drives:
+        starts = [t for t in i2.trans if t.src == a.state[1] and B.satisfiable(B.And(t.eff(), a.eff()))]
+        leak = None
+        for t0 in starts:
+            seen, todo = set(), [(t0.dst, [t0.src, t0.dst])]
+            while todo and leak is None:
+                st_, path = todo.pop()
+                if st_ == "IDLE":
+                    leak = path
+                    break
+                if st_ in seen:
+                    continue
+                seen.add(st_)
+                for t in [t for t in i2.trans if t.src == st_]:
+                    if not carried(t, "1"):
+                        todo.append((t.dst, path + [t.dst]))
+        ctx.ob("Q3", I2C, "I2CMasterMachine", f"SDA released before IDLE after `sda_o <= {a.v}` in {a.state[1]}", leak is None,
+               "" if leak is None else f"path {' -> '.join(leak)} returns to IDLE without `sda_o <= 1`: the master keeps pulling SDA low after its own bit "
+                                       f"and a following read samples its own level instead of the slave's", a.line)
+
     # ================================================================ Q4
     tm = fx_of(ctx, TIMER, "Timer")
     fail_closed(ctx, tm, "Timer")
